@@ -11,6 +11,15 @@ from . import common
 from .common import write_file, base_env
 
 
+
+def _read_nb(fd, n):
+    """read after select(): the descriptor may share its O_NONBLOCK flag with redo processes, and somebody else may have
+    taken the bytes in between - that is 'nothing there', not an error"""
+    try:
+        return os.read(fd, n)
+    except BlockingIOError:
+        return b''
+
 def _zombie_or_gone(pid):
     try:
         st = open('/proc/%d/stat' % pid).read()
@@ -103,7 +112,11 @@ class GateRun:
                 status = 'timeout'
                 break
             rl, _, _ = select.select([reqfd], [], [], 0.05)
-            chunk = os.read(reqfd, 65536) if rl else b''
+            try:
+                chunk = os.read(reqfd, 65536) if rl else b''
+            except BlockingIOError:
+                chunk = b''          # a writer opened the FIFO between select() and read() and has not written yet
+                rl = []
             if not chunk:
                 if rl:
                     time.sleep(0.005)      # EOF: no writer at the moment
@@ -117,7 +130,7 @@ class GateRun:
                     # other job got it), then let the holder of that target finish
                     time.sleep(0.05)
                     while select.select([R], [], [], 0)[0]:
-                        held += len(os.read(R, 16))
+                        held += len(_read_nb(R, 16))
                     m = re.findall(r'lock_wait fid=(\d+)', (common.read_file(self.trace) or b'').decode('utf-8', 'replace'))
                     # which target it waits for is not in the record by name: release the holders in the order of the command line
                     for i, h in enumerate(holders):
@@ -215,7 +228,7 @@ class GateRun:
                     while p.poll() is None and time.time() - tz < 3 and self._count_delays() <= self._delays_before:
                         time.sleep(0.002)
                     if select.select([R], [], [], 0)[0]:
-                        os.read(R, 1)      # stolen: the token stays with the harness
+                        _read_nb(R, 1)      # stolen: the token stays with the harness
                     else:
                         held -= 1          # the process got there first after all
         for h in holders:
@@ -238,7 +251,7 @@ class GateRun:
         common.kill_session(p.pid)
         left = 0
         while select.select([R], [], [], 0)[0]:
-            left += len(os.read(R, 4096))
+            left += len(_read_nb(R, 4096))
         os.close(R)
         os.close(W)
         os.close(reqfd)
